@@ -208,6 +208,12 @@ class C10(core.Check):
             if shape == "positions" and rs.random() < 0.6:
                 fav = rs.choice(["⟨1|2|3|4⟩ $ λ›; ¨M", "⟨5|6|7⟩ $ İ", "⟨5|6|7|8⟩ $ i", "⟨5|6|7|8⟩ $ λd; ¨M", "⟨5|6|7|8⟩ $ 9 Ȧ"])
             pair = rs.choice(RELATED) if rs.random() < 0.3 else None
+            if rs.random() < 0.3:
+                # transform, share the RESULT, transform one reference to the result again with the same recipe
+                events.append(["apply", [fav]])
+                for op in rs.choice(SHARE_OPS).split(" "):
+                    events.append(["copy", op])
+                events.append(["apply", [fav]])
             if rs.random() < 0.25:
                 # a list whose items are known by definition (primes, naturals, ...), shared, walked by a loop that
                 # leaves early, then read through the other reference
